@@ -218,6 +218,35 @@ def run(tier, selftest):
         if nxv >= 6:
             break
 
+    # histories with removals through the API (ItemList::swap_remove) between the insertions and the sort_new_items calls:
+    # judged by the property alone (the implementation-shaped model has no removal)
+    tpr = os.path.join(vlib.scratch(), "placement_trace_remove.ndjson")
+    rc, lines, err = vlib.run_harness(binp, ["placement-record", "--seed", vlib.seed() + 523, "--traces", traces, "--steps", steps,
+                                             "--init", init + 4, "--remove", 1, "--out", tpr], timeout=900)
+    if rc != 0:
+        vlib.tool_error(f"placement-record (removals) failed: {err[-500:]}")
+    with open(tpr) as f:
+        rev = [json.loads(l) for l in f if l.strip()]
+    nremove = sum(1 for e in rev if e["ev"] == "remove")
+    if nremove < 20:
+        vlib.tool_error(f"vacuity: only {nremove} removals recorded")
+    nrv = 0
+    while rev:
+        ok, irej = ideal_accepts(rev)
+        if ok:
+            break
+        d = irej[0]
+        start = max(i for i in range(d) if rev[i]["ev"] == "load")
+        end = next((i for i in range(d, len(rev)) if rev[i]["ev"] == "load"), len(rev))
+        bad = rev[d - 1]
+        rep.violation(f"placement:{bad['ev']}:{'panic' if bad.get('panic') else 'order-after-removal'}",
+                      f"history with removals violates C15 (Trace_PlacementIdeal rejects event {d}: {json.dumps({k: bad[k] for k in bad if k != 'lists'})[:300]})",
+                      {"kind": "history-ideal", "events": rev[start:end]})
+        rev = rev[end:]
+        nrv += 1
+        if nrv >= 6:
+            break
+
     binding = None
     if selftest or thorough:
         binding = selftest_binding(binp, cases, tp)
@@ -243,6 +272,7 @@ def run(tier, selftest):
         "trace_events_validated": acc_ev,
         "trace_rejections": rej,
         "histories_on_a_second_module": acc_tr2,
+        "removals_in_histories_judged_by_the_ideal_relation": nremove,
         "trace_shape": {"traces": traces, "steps": steps, "init_children": init, "consecutive_sort_calls": repeat},
     }
     if binding is not None:
@@ -293,6 +323,10 @@ def replay(path):
         # replay on the same triple of list kinds: pad the case list so that index % 7 == triple
         pad = [{"from": {"E": [{"cmt": True}], "lists": {}, "written": []}, "to": {"E": []}, "op": {"op": "skip"}, "panic": False}] * case["triple"]
         replay_cases(binp, pad + [case["case"]], rep, "replay")
+    elif case["kind"] == "history-ideal":
+        ok, irej = ideal_accepts(case["events"])
+        if not ok:
+            rep.violation("placement:history", f"Trace_PlacementIdeal rejects event {irej[0]} of the recorded history", case)
     elif case["kind"] == "history":
         tp = os.path.join(vlib.scratch(), "replay_ptrace.ndjson")
         vlib.write_ndjson(tp, case["events"])
